@@ -310,6 +310,19 @@ def coq_cert(cert):
                     for tc in cert)
 
 
+def coq_cert2(cert):
+    """cert: list (per term) of (delta eliminations, weighted swaps)"""
+    return coq_list(
+        f"(mk_tcert2 {coq_swaps(ds)} "
+        + coq_list(f"({coq_q(w)}, {coq_swaps(sw)})" for w, sw in ws) + ")"
+        for ds, ws in cert)
+
+
+COQ_HEADER2 = """From Coq Require Import ZArith QArith List String.
+From ADC Require Import Core.Scalar Core.Index Core.Expr Core.Swap Core.Canon Core.Equiv Core.DeltaRule Core.Equiv2.
+Import ListNotations. Open Scope string_scope.
+"""
+
 COQ_HEADER = """From Coq Require Import ZArith QArith List String.
 From ADC Require Import Core.Scalar Core.Index Core.Expr Core.Swap Core.Canon Core.Equiv.
 Import ListNotations. Open Scope string_scope.
